@@ -4,6 +4,7 @@ C02 — what the Jacobian property adds to the transform model of `Model/C01.lea
 
 * `X.jdom p x`   the set on which `X.jacobian p x` is a number, read off the `np.where` guard of `_jacobian`
                  (for `Log`/`BoxCox*`: `x + nu > mininu`; `Logit`: `lower + EPS < x < upper - EPS`; …);
+* `Sinh.jacH`    the repaired `Sinh._jacobian` (`scale / hypot(1, u)`), overflow-free at `Float`;
 * Softmax        the matrix of partial derivatives of one row of `forward`
                  (`∂y_i/∂x_j = δ_ij / x_i + 1/(1 - s)`), as nested lists, and a determinant by Laplace expansion
                  along the first row — executable at `Float` in the driver, where it is compared with
@@ -26,6 +27,15 @@ def Log.jdom (p : Log.Params α) (x : α) : Prop := p.mininu < x + p.nu
 def BoxCox2.jdom (p : BoxCox2.Params α) (x : α) : Prop := p.mininu < x + p.nu
 /-- `Reciprocal._jacobian`: `np.where(x > -nu, …, nan)` -/
 def Reciprocal.jdom (p : Reciprocal.Params α) (x : α) : Prop := -p.nu < x
+
+/-- `Sinh._jacobian` after the repair: `scale / np.hypot(1., u)`. `hypot` evaluates `sqrt(1 + u²)` without forming
+`u²` for large `|u|`; modelled as `|u| · sqrt(1 + (1/|u|)²)` when `|u| > 1` and `sqrt(1 + u·u)` otherwise, so that the
+`Float` instance never overflows either. Over ℝ this is `Sinh.jac` of Model/C01 (theorem `Sinh.jacH_eq_jac`). -/
+def Sinh.hypot1 (u : α) : α :=
+  let au := absv u
+  if 1 < au then au * Transc.sqrt (1 + (1 / au) * (1 / au)) else Transc.sqrt (1 + u * u)
+def Sinh.jacH (p : Sinh.Params α) (x : α) : α := p.scale / Sinh.hypot1 ((x - p.nu) * p.scale)
+def Sinh.jacobianH (p : Sinh.Params α) (x : α) : Option α := some (Sinh.jacH p x)
 
 namespace Softmax
 /-- `∂ forward(x)_i / ∂ x_j = δ_ij / x_i + 1/(1 - Σ x)` -/
